@@ -301,3 +301,31 @@ impl Stream for ListenerStream {
         Pin::into_inner(self).poll_next(cx)
     }
 }
+
+/// Verification hooks (add-only, compiled only with `--cfg remoc_verif`).
+#[cfg(remoc_verif)]
+#[allow(missing_docs, private_interfaces, dead_code, clippy::all)]
+pub mod verif_hooks {
+    use super::*;
+
+    /// `None` stands for `RemoteConnectMsg::ClientDropped`.
+    pub fn remote_connect_view(msg: RemoteConnectMsg) -> Option<Request> {
+        match msg {
+            RemoteConnectMsg::Request(req) => Some(req),
+            RemoteConnectMsg::ClientDropped => None,
+        }
+    }
+
+    pub fn request_new(
+        remote_port: u32, id: u32, wait: bool, allocator: PortAllocator, tx: mpsc::Sender<PortEvt>,
+    ) -> Request {
+        Request::new(remote_port, id, wait, allocator, tx)
+    }
+
+    pub fn listener_new(
+        wait_rx: mpsc::Receiver<RemoteConnectMsg>, no_wait_rx: mpsc::Receiver<RemoteConnectMsg>,
+        port_allocator: PortAllocator, terminate_tx: mpsc::UnboundedSender<()>,
+    ) -> Listener {
+        Listener::new(wait_rx, no_wait_rx, port_allocator, terminate_tx)
+    }
+}
